@@ -139,6 +139,12 @@ func (g *RunGen) stmt(ind int) string {
 	case k == 17:
 		return g.simple() + " | { read -r l; echo \"got:$l\"; }"
 	case k == 18:
+		if r.Bool() {
+			// `<<-`: body and delimiter indented with tabs, as deep as the statement (seeded change C03-3 wrote the
+			// closing delimiter with spaces under Indent(n>0), which only shows below the top level)
+			t := strings.Repeat("\t", ind+r.Intn(2))
+			return "cat <<-EOF\n" + t + r.Pick([]string{"line $a", "x $((1+1))", "plain", "$(echo sub)"}) + "\n" + t + "second \\$b\n" + t + "EOF\n" + tabs + "echo after-hdoc"
+		}
 		return "cat <<EOF\n" + r.Pick([]string{"line $a", "x\t$((1+1))", "plain", "$(echo sub)"}) + "\nsecond \\$b\nEOF"
 	case k == 19:
 		return "while read -r l; do echo \"<$l>\"; done <<'E'\none\ntwo  three\nE"
